@@ -121,6 +121,10 @@ def check(ctx):
     vl = find("self._varlist = M_v", ri)
     ok = len(vl) == 1 and eqv(vl[0][1]["M_v"], "[t for t in Traverser(lhs) if t in vars]") and bool(find("self.vars = tuple(sorted(set(self._varlist)))", ri))
     ctx.ob("ABS.rule-vars.whole-lhs", ri, "RewriteRule._varlist = [t for t in Traverser(lhs) if t in vars] -- traversal of lhs itself, head included", ok, "" if ok else "collecting over args(lhs) only: a catch-all rule whose lhs is a bare variable has no variables, is stored as a constant edge and never matches")
+    # ---------------- a VAR edge consumes a subterm: it is not taken at the end of the term
+    vb = [n for n in ast.walk(mt) if isinstance(n, ast.If) and find("S.skip()", n) and "n" in {x.id for x in ast.walk(n.test) if isinstance(x, ast.Name)}]
+    ok = len(vb) == 1 and eqv(vb[0].test, "n and S.current is not END")
+    ctx.ob("TYPESTATE.var-edge.not-at-end", mt, "the VAR edge is followed only while S.current is not END (skip() needs a subterm)", ok, "" if ok else "after a match was yielded at the end of the term the END marker is bound to a variable and skip() pops an empty stack: IndexError for rule sets where one lhs is a prefix of another")
 
 
 VARIANTS = [
